@@ -127,6 +127,7 @@ def compare_script(script, c_res, m_res, observable=("R", "C"), internal=("I",))
     if c_fault == "skipped":
         return {"kind": "skipped"}
     drift = None
+    pending = None     # an observable code/model difference after which the scan went on
     for i in range(len(script)):
         if i >= len(c_lines):
             return {"kind": "fault", "line": i, "detail": c_fault or "truncated", "op": script[i],
@@ -137,24 +138,35 @@ def compare_script(script, c_res, m_res, observable=("R", "C"), internal=("I",))
             return {"kind": "fault", "line": i, "detail": cl, "op": script[i], "model": ml}
         if cl == "bad-op" or ml == "bad-op" or cl.startswith("#"):
             if (cl == "bad-op") != (ml == "bad-op"):
-                return {"kind": "c_ne_m", "line": i, "detail": "bad-op mismatch: C=%r M=%r" % (cl, ml), "op": script[i]}
+                return pending or {"kind": "c_ne_m", "line": i, "detail": "bad-op mismatch: C=%r M=%r" % (cl, ml), "op": script[i]}
             continue
         cs, ms = sections(cl), sections(ml)
         if "S" in ms:
             r, c = cs.get("R", ""), cs.get("C", "")
             if not spec_allows(ms["S"], r, c):
                 return {"kind": "c_ne_s", "line": i, "op": script[i],
-                        "detail": "code: R %s | C %s   spec allows: %s" % (r, c, ms["S"]), "model": ml}
-            if not spec_allows(ms["S"], ms.get("R", ""), ms.get("C", "")):
+                        "detail": "code: R %s | C %s   spec allows: %s" % (r, c, ms["S"]), "model": ml,
+                        "after_drift": pending["line"] if pending else None}
+            if not pending and not spec_allows(ms["S"], ms.get("R", ""), ms.get("C", "")):
                 return {"kind": "m_ne_s", "line": i, "op": script[i], "detail": "model: %s" % ml}
+        if pending:
+            continue
         for t in observable:
             if cs.get(t) != ms.get(t):
-                return {"kind": "c_ne_m", "line": i, "op": script[i],
-                        "detail": "section %s: code=%r model=%r" % (t, cs.get(t), ms.get(t))}
+                pending = {"kind": "c_ne_m", "line": i, "op": script[i],
+                           "detail": "section %s: code=%r model=%r" % (t, cs.get(t), ms.get(t))}
+                break
+        if pending:
+            # code and model part ways here.  When the spec allowed exactly one outcome for this op its
+            # state does not depend on who was right, so later ops can still be judged against the spec
+            # (a real violation further down is a better replay than "model drift").
+            if "S" in ms and " || " not in ms["S"]:
+                continue
+            return pending
         for t in internal:
             if cs.get(t) != ms.get(t) and drift is None:
                 drift = {"kind": "drift", "line": i, "op": script[i],
                          "detail": "section %s: code=%r model=%r" % (t, cs.get(t), ms.get(t))}
     if c_fault:
         return {"kind": "fault", "line": len(script), "detail": c_fault, "op": "(exit)"}
-    return drift or {"kind": "ok"}
+    return pending or drift or {"kind": "ok"}
